@@ -19,6 +19,7 @@
 package cstate
 
 import (
+	"encoding/binary"
 	"fmt"
 	"math/big"
 
@@ -27,6 +28,7 @@ import (
 	"github.com/kardiachain/go-kardia/mainchain/genesis"
 
 	"github.com/kardiachain/go-kardia/lib/common"
+	"github.com/kardiachain/go-kardia/lib/crypto"
 	"github.com/kardiachain/go-kardia/lib/log"
 	"github.com/kardiachain/go-kardia/lib/metrics"
 
@@ -96,6 +98,13 @@ func saveState(db kaidb.KeyValueStore, state LatestBlockState) {
 	// write next validators
 	sp.NextValidatorsInfoHash = saveValidatorsInfo(batch, state.LastHeightValidatorsChanged, state.NextValidators).Bytes()
 
+	// The records above are keyed by ValidatorSet.Hash(), which covers address and power only, so a later
+	// height with the same membership overwrites them with other proposer priorities. Keep this state's
+	// own copy of its three sets (role 0: last, 1: current, 2: next); loading prefers it.
+	for role, valSet := range []*types.ValidatorSet{state.LastValidators, state.Validators, state.NextValidators} {
+		writeValidatorsInfo(batch, heightValidatorsKey(state.LastBlockHeight, role), state.LastHeightValidatorsChanged, valSet)
+	}
+
 	// write consensus params
 	sp.ConsensusParamsInfoHash = saveConsensusParamsInfo(batch, state.LastHeightConsensusParamsChanged, state.ConsensusParams).Bytes()
 
@@ -125,6 +134,9 @@ func (s *dbStore) PruneState(from, to uint64) (uint64, uint64, uint64) {
 			valInfoHash := common.BytesToHash(state.LastValidatorsInfoHash)
 			valInfosCache[valInfoHash] = struct{}{}
 			bz, _ := state.Marshal()
+			for role := 0; role < 3; role++ { // the state's own copies of its validator sets
+				rawdb.DeleteConsensusValidatorsInfo(s.db, heightValidatorsKey(i, role))
+			}
 			if err := rawdb.DeleteConsensusStateHeight(s.db, i); err != nil {
 				log.Error("Failed to prune consensus state", "height", i)
 			} else {
@@ -203,7 +215,7 @@ func loadStateAtHeight(db kaidb.Database, height uint64) *LatestBlockState {
 	appHash := rawdb.ReadAppHash(db, height)
 	state.AppHash = appHash
 
-	lValsInfo := rawdb.ReadConsensusValidatorsInfo(db, common.BytesToHash(sp.LastValidatorsInfoHash))
+	lValsInfo := readValidatorsInfo(db, height, 0, sp.LastValidatorsInfoHash)
 	if state.LastBlockHeight > 0 {
 		state.LastValidators, err = types.ValidatorSetFromProto(lValsInfo.ValidatorSet)
 		if err != nil {
@@ -211,13 +223,13 @@ func loadStateAtHeight(db kaidb.Database, height uint64) *LatestBlockState {
 		}
 	}
 
-	valsInfo := rawdb.ReadConsensusValidatorsInfo(db, common.BytesToHash(sp.ValidatorsInfoHash))
+	valsInfo := readValidatorsInfo(db, height, 1, sp.ValidatorsInfoHash)
 	state.Validators, err = types.ValidatorSetFromProto(valsInfo.ValidatorSet)
 	if err != nil {
 		panic(err)
 	}
 
-	nValsInfo := rawdb.ReadConsensusValidatorsInfo(db, common.BytesToHash(sp.NextValidatorsInfoHash))
+	nValsInfo := readValidatorsInfo(db, height, 2, sp.NextValidatorsInfoHash)
 	state.NextValidators, err = types.ValidatorSetFromProto(nValsInfo.ValidatorSet)
 	if err != nil {
 		panic(err)
@@ -242,7 +254,7 @@ func (s *dbStore) LoadValidators(height uint64) (*types.ValidatorSet, error) {
 		return nil, ErrNoConsensusStateForHeight{height}
 	}
 
-	valInfo := rawdb.ReadConsensusValidatorsInfo(s.db, common.BytesToHash(cstate.LastValidatorsInfoHash))
+	valInfo := readValidatorsInfo(s.db, height, 0, cstate.LastValidatorsInfoHash)
 	if valInfo == nil {
 		return nil, ErrNoValSetForHeight{height}
 	}
@@ -254,13 +266,36 @@ func (s *dbStore) LoadValidators(height uint64) (*types.ValidatorSet, error) {
 	return vip, nil
 }
 
-func saveValidatorsInfo(db kaidb.KeyValueWriter, lastHeightChanged uint64, valSet *types.ValidatorSet) common.Hash {
-	valInfo := kstate.ValidatorsInfo{
-		LastHeightChanged: lastHeightChanged,
+// heightValidatorsKey is the key of the copy of a validator set owned by the state of one height.
+func heightValidatorsKey(height uint64, role int) common.Hash {
+	var b [9]byte
+	binary.BigEndian.PutUint64(b[:8], height)
+	b[8] = byte(role)
+	return crypto.Keccak256Hash([]byte("cstate-validators-of-height"), b[:])
+}
+
+// readValidatorsInfo prefers the state's own copy; databases written before it existed only have the shared record.
+func readValidatorsInfo(db kaidb.Reader, height uint64, role int, sharedHash []byte) *kstate.ValidatorsInfo {
+	if valInfo := rawdb.ReadConsensusValidatorsInfo(db, heightValidatorsKey(height, role)); valInfo != nil {
+		return valInfo
 	}
+	return rawdb.ReadConsensusValidatorsInfo(db, common.BytesToHash(sharedHash))
+}
+
+func saveValidatorsInfo(db kaidb.KeyValueWriter, lastHeightChanged uint64, valSet *types.ValidatorSet) common.Hash {
 	hash := common.NewZeroHash()
 	if valSet != nil {
 		hash = valSet.Hash()
+	}
+	writeValidatorsInfo(db, hash, lastHeightChanged, valSet)
+	return hash
+}
+
+func writeValidatorsInfo(db kaidb.KeyValueWriter, key common.Hash, lastHeightChanged uint64, valSet *types.ValidatorSet) {
+	valInfo := kstate.ValidatorsInfo{
+		LastHeightChanged: lastHeightChanged,
+	}
+	if valSet != nil {
 		pv, err := valSet.ToProto()
 		if err != nil {
 			panic(err)
@@ -273,8 +308,7 @@ func saveValidatorsInfo(db kaidb.KeyValueWriter, lastHeightChanged uint64, valSe
 		consensusStateWrittenBytesGauge.Inc(int64(len(bz)))
 	}
 
-	rawdb.WriteConsensusValidatorsInfo(db, hash, valInfo)
-	return hash
+	rawdb.WriteConsensusValidatorsInfo(db, key, valInfo)
 }
 
 // LoadConsensusParams loads the ConsensusParams for a given height.
